@@ -175,16 +175,20 @@ end Cert
 namespace Cert
 variable {P : Type} (G : Game P)
 
-/-- Main theorem: a fixed point of `expected` agrees with the bounded-recursion ground truth. -/
-theorem fixedpoint_exact (T : P → Val) (hT : ∀ p, T p = expected G T p) :
-    ∀ n p, (lossW G n p = true ↔ ∃ k, k ≤ n ∧ T p = .loss k) ∧
+/-- Main theorem, relative to a move-closed set `S` of positions (for chess: the legal positions):
+    a table that satisfies the local rule `T p = expected T p` on `S` agrees on `S` with the
+    bounded-recursion ground truth, and never holds the impossible label `win 0` there. -/
+theorem fixedpoint_exact_on (S : P → Prop) (hS : ∀ p, S p → ∀ q ∈ G.moves p, S q)
+    (T : P → Val) (hT : ∀ p, S p → T p = expected G T p) :
+    (∀ p, S p → T p ≠ .win 0) ∧
+    ∀ n p, S p → (lossW G n p = true ↔ ∃ k, k ≤ n ∧ T p = .loss k) ∧
            (winW G n p = true ↔ ∃ k, 1 ≤ k ∧ k ≤ n ∧ T p = .win k) := by
   -- helper facts from the fixed point
-  have hwin : ∀ p m, T p = .win (m+1) ↔ minLoss T (G.moves p) = some m := by
-    intro p m
+  have hwin : ∀ p, S p → ∀ m, T p = .win (m+1) ↔ minLoss T (G.moves p) = some m := by
+    intro p hp m
     constructor
     · intro h
-      rw [hT p] at h
+      rw [hT p hp] at h
       unfold expected at h
       split at h
       · next n hn => injection h with e; rw [hn]; congr 1; omega
@@ -193,10 +197,10 @@ theorem fixedpoint_exact (T : P → Val) (hT : ∀ p, T p = expected G T p) :
         · split at h
           · split at h <;> cases h
           · cases h
-    · intro h; rw [hT p]; unfold expected; simp [h]
-  have hwin0 : ∀ p, T p ≠ .win 0 := by
-    intro p h
-    rw [hT p] at h
+    · intro h; rw [hT p hp]; unfold expected; simp [h]
+  have hwin0 : ∀ p, S p → T p ≠ .win 0 := by
+    intro p hp h
+    rw [hT p hp] at h
     unfold expected at h
     split at h
     · injection h with e; omega
@@ -205,11 +209,11 @@ theorem fixedpoint_exact (T : P → Val) (hT : ∀ p, T p = expected G T p) :
       · split at h
         · split at h <;> cases h
         · cases h
-  have hloss0 : ∀ p, T p = .loss 0 ↔ ((G.moves p).isEmpty = true ∧ G.inCheck p = true) := by
-    intro p
+  have hloss0 : ∀ p, S p → (T p = .loss 0 ↔ ((G.moves p).isEmpty = true ∧ G.inCheck p = true)) := by
+    intro p hp
     constructor
     · intro h
-      rw [hT p] at h
+      rw [hT p hp] at h
       unfold expected at h
       split at h
       · cases h
@@ -223,15 +227,15 @@ theorem fixedpoint_exact (T : P → Val) (hT : ∀ p, T p = expected G T p) :
             · next hm => injection h with e; omega
           · cases h
     · rintro ⟨he, hc⟩
-      rw [hT p]; unfold expected
+      rw [hT p hp]; unfold expected
       have : G.moves p = [] := by simpa using he
       simp [this, minLoss, hc]
-  have hlossS : ∀ p m, T p = .loss (m+1) ↔
+  have hlossS : ∀ p, S p → ∀ m, T p = .loss (m+1) ↔
       (minLoss T (G.moves p) = none ∧ (G.moves p).isEmpty = false ∧ allWinMax T (G.moves p) = some (m+1)) := by
-    intro p m
+    intro p hp m
     constructor
     · intro h
-      rw [hT p] at h
+      rw [hT p hp] at h
       unfold expected at h
       split at h
       · cases h
@@ -246,47 +250,48 @@ theorem fixedpoint_exact (T : P → Val) (hT : ∀ p, T p = expected G T p) :
             · injection h with e; subst e; exact ⟨hn, by simpa using he, hmm⟩
           · cases h
     · rintro ⟨h1, h2, h3⟩
-      rw [hT p]; unfold expected; simp [h1, h2, h3]
+      rw [hT p hp]; unfold expected; simp [h1, h2, h3]
+  refine ⟨hwin0, ?_⟩
   intro n
   induction n with
   | zero =>
-    intro p
+    intro p hp
     refine ⟨?_, ?_⟩
     · rw [lossW_zero]
       simp only [Bool.and_eq_true, Nat.le_zero_eq, exists_eq_left]
-      exact (hloss0 p).symm
+      exact (hloss0 p hp).symm
     · simp [winW, within]; intro k h1 h2; omega
   | succ n ih =>
     -- first the win part at n+1 (uses loss part at n), then the loss part at n+1 (uses win part at n+1)
-    have hW : ∀ p, winW G (n+1) p = true ↔ ∃ k, 1 ≤ k ∧ k ≤ n+1 ∧ T p = .win k := by
-      intro p
+    have hW : ∀ p, S p → (winW G (n+1) p = true ↔ ∃ k, 1 ≤ k ∧ k ≤ n+1 ∧ T p = .win k) := by
+      intro p hp
       rw [winW_succ, List.any_eq_true]
       constructor
       · rintro ⟨q, hq, hql⟩
-        obtain ⟨k, hk, hk'⟩ := ((ih q).1).1 hql
+        obtain ⟨k, hk, hk'⟩ := ((ih q (hS p hp q hq)).1).1 hql
         -- some successor labelled loss k ≤ n ⇒ minLoss = some m with m ≤ k
         cases hm : minLoss T (G.moves p) with
         | none => exact absurd hk' ((minLoss_none T _).1 hm q hq k)
         | some m =>
           have := ((minLoss_some T _ m).1 hm).2 q hq k hk'
-          exact ⟨m+1, by omega, by omega, (hwin p m).2 hm⟩
+          exact ⟨m+1, by omega, by omega, (hwin p hp m).2 hm⟩
       · rintro ⟨k, hk1, hk2, hk3⟩
         obtain ⟨m, rfl⟩ : ∃ m, k = m+1 := ⟨k-1, by omega⟩
-        have hm := (hwin p m).1 hk3
+        have hm := (hwin p hp m).1 hk3
         obtain ⟨q, hq, hq'⟩ := ((minLoss_some T _ m).1 hm).1
-        exact ⟨q, hq, ((ih q).1).2 ⟨m, by omega, hq'⟩⟩
-    intro p
-    refine ⟨?_, hW p⟩
+        exact ⟨q, hq, ((ih q (hS p hp q hq)).1).2 ⟨m, by omega, hq'⟩⟩
+    intro p hp
+    refine ⟨?_, hW p hp⟩
     rw [lossW_succ]
     constructor
     · intro h
       simp only [Bool.or_eq_true, Bool.and_eq_true, Bool.not_eq_true', List.all_eq_true] at h
       rcases h with ⟨he, hc⟩ | ⟨hne, hall⟩
-      · exact ⟨0, by omega, (hloss0 p).2 ⟨he, hc⟩⟩
+      · exact ⟨0, by omega, (hloss0 p hp).2 ⟨he, hc⟩⟩
       · -- every successor labelled win k with 1 ≤ k ≤ n+1
         have hall' : ∀ q ∈ G.moves p, ∃ k, k ≤ n+1 ∧ T q = .win k := by
           intro q hq
-          obtain ⟨k, _, hk2, hk3⟩ := (hW q).1 (hall q hq)
+          obtain ⟨k, _, hk2, hk3⟩ := (hW q (hS p hp q hq)).1 (hall q hq)
           exact ⟨k, hk2, hk3⟩
         obtain ⟨b, hb⟩ := allWinMax_isSome T _ (n+1) hall'
         have hb' := (allWinMax_some T _ b).1 hb
@@ -300,24 +305,123 @@ theorem fixedpoint_exact (T : P → Val) (hT : ∀ p, T p = expected G T p) :
           rw [hq'] at hk2; injection hk2 with e; subst e
           have hb1 : 1 ≤ b := by
             rcases Nat.eq_zero_or_pos b with h0 | h0
-            · subst h0; exact absurd hq' (hwin0 q)
+            · subst h0; exact absurd hq' (hwin0 q (hS p hp q hq))
             · exact h0
           obtain ⟨m, rfl⟩ : ∃ m, b = m+1 := ⟨b-1, by omega⟩
-          exact ⟨m+1, hk1, (hlossS p m).2 ⟨hnone, hne, hb⟩⟩
+          exact ⟨m+1, hk1, (hlossS p hp m).2 ⟨hnone, hne, hb⟩⟩
     · rintro ⟨k, hk, hk'⟩
       simp only [Bool.or_eq_true, Bool.and_eq_true, Bool.not_eq_true', List.all_eq_true]
       rcases Nat.eq_zero_or_pos k with h0 | h0
-      · subst h0; left; exact (hloss0 p).1 hk'
+      · subst h0; left; exact (hloss0 p hp).1 hk'
       · obtain ⟨m, rfl⟩ : ∃ m, k = m+1 := ⟨k-1, by omega⟩
-        obtain ⟨h1, h2, h3⟩ := (hlossS p m).1 hk'
+        obtain ⟨h1, h2, h3⟩ := (hlossS p hp m).1 hk'
         right
         refine ⟨h2, fun q hq => ?_⟩
         obtain ⟨k', hk1, hk2⟩ := ((allWinMax_some T _ (m+1)).1 h3).1 q hq
         have : 1 ≤ k' := by
           rcases Nat.eq_zero_or_pos k' with h0 | h0
-          · subst h0; exact absurd hk2 (hwin0 q)
+          · subst h0; exact absurd hk2 (hwin0 q (hS p hp q hq))
           · exact h0
-        exact (hW q).2 ⟨k', this, by omega, hk2⟩
+        exact (hW q (hS p hp q hq)).2 ⟨k', this, by omega, hk2⟩
+
+/-- The unrelativised form: a fixed point of `expected` on all positions. -/
+theorem fixedpoint_exact (T : P → Val) (hT : ∀ p, T p = expected G T p) :
+    ∀ n p, (lossW G n p = true ↔ ∃ k, k ≤ n ∧ T p = .loss k) ∧
+           (winW G n p = true ↔ ∃ k, 1 ≤ k ∧ k ≤ n ∧ T p = .win k) :=
+  fun n p => (fixedpoint_exact_on G (fun _ => True) (fun _ _ _ _ => trivial) T (fun p _ => hT p)).2 n p trivial
+
+/-! ### The local rule on a list of successor values (what the executable checker evaluates) -/
+
+/-- `expected` computed from the successors' table values -/
+def expectedV (vals : List Val) (chk : Bool) : Val :=
+  match minLoss id vals with
+  | some n => .win (n+1)
+  | none =>
+    if vals.isEmpty then (if chk then .loss 0 else .draw)
+    else match allWinMax id vals with
+      | some m => if m = 0 then .draw else .loss m
+      | none => .draw
+
+theorem minLoss_map (T : P → Val) (l : List P) : minLoss id (l.map T) = minLoss T l := by
+  induction l with
+  | nil => rfl
+  | cons q l ih => simp only [List.map, minLoss, ih, id]
+
+theorem allWinMax_map (T : P → Val) (l : List P) : allWinMax id (l.map T) = allWinMax T l := by
+  induction l with
+  | nil => rfl
+  | cons q l ih => simp only [List.map, allWinMax, ih, id]
+
+theorem expected_eq_expectedV (T : P → Val) (p : P) :
+    expected G T p = expectedV ((G.moves p).map T) (G.inCheck p) := by
+  unfold expected expectedV
+  rw [minLoss_map, allWinMax_map]
+  simp only [List.isEmpty_map]
+
+/-! ### The exact value as a function -/
+
+theorem exists_least (Q : Nat → Prop) (h : ∃ n, Q n) : ∃ n, Q n ∧ ∀ m, m < n → ¬ Q m := by
+  obtain ⟨n, hn⟩ := h
+  induction n using Nat.strongRecOn with
+  | _ n ih =>
+    by_cases hex : ∃ m, m < n ∧ Q m
+    · obtain ⟨m, hm, hq⟩ := hex; exact ih m hm hq
+    · exact ⟨n, hn, fun m hm hq => hex ⟨m, hm, hq⟩⟩
+
+noncomputable def least (Q : Nat → Prop) (h : ∃ n, Q n) : Nat := Classical.choose (exists_least Q h)
+
+theorem least_spec (Q : Nat → Prop) (h : ∃ n, Q n) : Q (least Q h) ∧ ∀ m, m < least Q h → ¬ Q m :=
+  Classical.choose_spec (exists_least Q h)
+
+open Classical in
+/-- Exact distance to mate in the move metric of `PositionValue`: `win n` iff the side to move can force mate in
+    `n` of its own moves and not in fewer, `loss n` iff it is mated in `n` moves at best (0 = is checkmated) and
+    cannot hold out longer, `draw` iff neither side can force mate in any number of moves. -/
+noncomputable def DTM (p : P) : Val :=
+  if h : ∃ n, winW G n p = true then .win (least _ h)
+  else if h : ∃ n, lossW G n p = true then .loss (least _ h)
+  else .draw
+
+/-- A table that satisfies the local rule on a move-closed set equals the exact distance to mate there. -/
+theorem fixedpoint_is_dtm (S : P → Prop) (hS : ∀ p, S p → ∀ q ∈ G.moves p, S q)
+    (T : P → Val) (hT : ∀ p, S p → T p = expected G T p) : ∀ p, S p → T p = DTM G p := by
+  obtain ⟨h0, hx⟩ := fixedpoint_exact_on G S hS T hT
+  intro p hp
+  have nowin : (∀ k, T p ≠ .win k) → ¬ ∃ n, winW G n p = true := by
+    rintro hne ⟨n, hn⟩
+    obtain ⟨k, _, _, hk⟩ := ((hx n p hp).2).1 hn
+    exact hne k hk
+  have noloss : (∀ k, T p ≠ .loss k) → ¬ ∃ n, lossW G n p = true := by
+    rintro hne ⟨n, hn⟩
+    obtain ⟨k, _, hk⟩ := ((hx n p hp).1).1 hn
+    exact hne k hk
+  cases hv : T p with
+  | win k =>
+    have hk1 : 1 ≤ k := by
+      rcases Nat.eq_zero_or_pos k with h | h
+      · subst h; exact absurd hv (h0 p hp)
+      · exact h
+    have hw : winW G k p = true := ((hx k p hp).2).2 ⟨k, hk1, Nat.le_refl _, hv⟩
+    have hex : ∃ n, winW G n p = true := ⟨k, hw⟩
+    unfold DTM; rw [dif_pos hex]
+    obtain ⟨hl1, hl2⟩ := least_spec _ hex
+    obtain ⟨k', _, hk', hk''⟩ := ((hx _ p hp).2).1 hl1
+    rw [hv] at hk''; injection hk'' with e; subst e
+    have : ¬ k < least _ hex := fun hlt => hl2 k hlt hw
+    congr 1; omega
+  | loss k =>
+    have hnw : ¬ ∃ n, winW G n p = true := nowin (by intro k' h; rw [hv] at h; cases h)
+    have hl : lossW G k p = true := ((hx k p hp).1).2 ⟨k, Nat.le_refl _, hv⟩
+    have hex : ∃ n, lossW G n p = true := ⟨k, hl⟩
+    unfold DTM; rw [dif_neg hnw, dif_pos hex]
+    obtain ⟨hl1, hl2⟩ := least_spec _ hex
+    obtain ⟨k', hk', hk''⟩ := ((hx _ p hp).1).1 hl1
+    rw [hv] at hk''; injection hk'' with e; subst e
+    have : ¬ k < least _ hex := fun hlt => hl2 k hlt hl
+    congr 1; omega
+  | draw =>
+    have hnw : ¬ ∃ n, winW G n p = true := nowin (by intro k' h; rw [hv] at h; cases h)
+    have hnl : ¬ ∃ n, lossW G n p = true := noloss (by intro k' h; rw [hv] at h; cases h)
+    unfold DTM; rw [dif_neg hnw, dif_neg hnl]
 
 end Cert
-#print axioms Cert.fixedpoint_exact
